@@ -1,3 +1,4 @@
+import PT.Lemmas.RetainRec
 import PT.Lemmas.Refine
 import PT.Lemmas.Reach
 /-!
@@ -69,5 +70,30 @@ theorem children_eq_spec {m : PMap w V} (h : m.TreeWF) (q : Pfx w) :
 
 theorem removeChildren_eq_spec {m : PMap w V} (h : m.Inv) (q : Pfx w) :
     (m.removeChildren q).entries = Spec.removeChildren m.entries q := PMap.removeChildren_refines h q
+
+
+/-! ### `_retain` as written
+
+`PMap.retainRec` / `Tree.retainF` (`PT/Retain.lean`) transcribe the recursion of `_retain` with its
+`idx_removed` / `par_removed` flags; this is the function the correspondence driver executes.  The
+theorems above are stated for `PMap.retain`, the post-order fold of `_remove_node`-by-key. -/
+
+/-- the recursion **is** that fold, on every well-formed map, for complete runs and for runs cut short
+by a predicate that panics at its `k`-th call: same tree, same free list, same counter -/
+theorem retain_recursion_eq_fold {m : PMap w V} (h : m.TreeWF) (f : Pfx w → V → Bool) (stop : Option Nat) :
+    m.retainRec f stop = m.retain f stop := retainRec_eq h f stop
+
+/-- hence, for the recursion: exactly the entries satisfying the predicate survive, the invariant holds -/
+theorem retainRec_entries {m : PMap w V} (h : m.Inv) (f : Pfx w → V → Bool) :
+    (m.retainRec f).entries = m.entries.filter (fun e => f e.1 e.2) ∧ (m.retainRec f).Inv := by
+  rw [retainRec_eq h.tree]
+  exact ⟨retain_iter h f, retain_inv h f none⟩
+
+/-- the recursion on a subtree, allowed `n` calls, does what folding `_remove_node` over the first `n`
+post-order entries does, and aborts iff `n` is smaller than the number of entries -/
+theorem retainF_spec (f : Pfx w → V → Bool) {k : List Bool} {t : Tree w V} (hwf : Tree.WF k t) (hp : Bool) (n : Nat) :
+    (Tree.retainF f t hp n).acc = Tree.foldF f hp (t.postorder.take n) t ∧
+    (Tree.retainF f t hp n).budget = n - t.postorder.length ∧
+    (Tree.retainF f t hp n).aborted = decide (n < t.postorder.length) := Tree.retainF_eq_fold f hwf hp n
 
 end PT.C10
